@@ -10,6 +10,7 @@ import (
 	"sort"
 	"strings"
 
+	"github.com/openconfig/gnmi/coalesce"
 	"github.com/openconfig/gnmi/subscribe"
 	"github.com/openconfig/gnmi/zz_verif/vh"
 )
@@ -338,6 +339,27 @@ func dedupQs(qs [][]string) [][]string {
 	return out
 }
 
+// genWalkLock: pre-populated leaves, single-path subscriptions, writers that only delete:
+// released while a walk is parked inside an insertion, a delete must wait for the walk.
+func genWalkLock(r *vh.Rand) *Case {
+	cs := &Case{Mode: "S", ED: r.Chance(1, 2), NW: 2, Seed: r.U64() % 1000000, WalkLock: true}
+	t := targets[0]
+	for i, n := 0, 2+r.Intn(3); i < n; i++ {
+		cs.Ops = append(cs.Ops, Op{W: -1, K: "upd", P: append([]string{t}, leafUniverse[r.Intn(len(leafUniverse))]...), V: int64(1 + r.Intn(3)), TS: int64(1 + r.Intn(3))})
+	}
+	for i, n := 0, 1+r.Intn(3); i < n; i++ {
+		if r.Chance(1, 6) {
+			cs.Ops = append(cs.Ops, Op{W: 0, K: "reset", P: []string{t}})
+		} else {
+			cs.Ops = append(cs.Ops, Op{W: 0, K: "del", P: genDelPattern(r, t), TS: int64(5 + r.Intn(3))})
+		}
+	}
+	for i, n := 0, 1+r.Intn(2); i < n; i++ {
+		cs.Subs = append(cs.Subs, SubCfg{Qs: [][]string{append([]string{t}, queryShapes[r.Intn(len(queryShapes))]...)}})
+	}
+	return cs
+}
+
 func genCase(r *vh.Rand, mode string, shared bool, maxOps int) *Case {
 	cs := &Case{Mode: mode, ED: r.Chance(1, 2), NW: 2, Seed: r.U64() % 1000000}
 	npre := r.Intn(4)
@@ -355,6 +377,21 @@ func genCase(r *vh.Rand, mode string, shared bool, maxOps int) *Case {
 		cs.Ops = append(cs.Ops, genOp(r, w, t))
 	}
 	nsub := 1 + r.Pick(2, 5, 1)
+	if mode == "A" && r.Chance(1, 2) {
+		// sibling / nested pairs; one of the two goes away, then more writes
+		pairs := [][2][]string{{{"a", "x"}, {"a", "y"}}, {{"a", "x"}, {"a"}}, {{"a"}, {"a", "x"}}, {{"a", "x"}, {}}, {{"b"}, {"c", "z"}}, {{"a", "*"}, {"a", "y"}}}
+		pr := pairs[r.Intn(len(pairs))]
+		t := targets[0]
+		cs.Subs = append(cs.Subs, SubCfg{Qs: [][]string{append([]string{t}, pr[0]...)}}, SubCfg{Qs: [][]string{append([]string{t}, pr[1]...)}})
+		cs.Cancel = []int{0}
+		for k, n := 0, 2+r.Intn(4); k < n; k++ {
+			cs.Ops = append(cs.Ops, Op{W: -2, K: "upd", P: genPath(r, t), V: int64(4 + r.Intn(5)), TS: int64(20 + k)})
+		}
+		if r.Chance(1, 2) {
+			return cs
+		}
+		nsub = 1
+	}
 	for i := 0; i < nsub; i++ {
 		// mode S: the paths of one subscriber select disjoint leaves -- a leaf selected twice by
 		// one walk is inserted twice, and a sender woken by the first insertion races the second
@@ -439,6 +476,12 @@ func main() {
 		hookS(point)
 		hookA(point)
 	}
+	// pauses inside coalesce.Queue.Insert / Next as well (mode A): between a walk's visit of a
+	// leaf and its insertion, between insertion and signal
+	coalesce.VerifHook = func(point string) {
+		hookA(point)
+		hookWalkLock(point)
+	}
 	meta := vh.NewMeta("corpus; mode S: 2 writers x 1-3 STREAM subscribers x 1-4 writes (+0-3 pre-populated leaves) on a 4-leaf schema over 2 targets, every thread parked at the verif hook points (registered / before-walk / before-sync / before-next), in the feed callback and in Send, schedules chosen blindly (seeded random walks; depth-first enumeration of small configurations), every released step validated against the transition system inside Coq; mode A: the same shapes (overlapping queries allowed, up to 8 writes) free-running with seeded pauses at the same points, judged at quiescence. distinct = distinct (ops, subscriptions, schedule, streams); non-trivial = some subscriber received a response after its sync")
 	e := &emitter{dir: o.Out, cf: vh.NewCaseFile(), meta: meta, limit: 400}
 
@@ -505,6 +548,16 @@ func main() {
 		rr := r.Fork()
 		cs := genCase(rr, "S", true, 4)
 		cs.Family = "S-random-shared-target"
+		e.execute(cs, randomDecide(rr))
+	}
+	nWL := 250
+	if o.Thorough() {
+		nWL = 6000
+	}
+	for i := 0; i < nWL && e.bad < 3; i++ {
+		rr := r.Fork()
+		cs := genWalkLock(rr)
+		cs.Family = "S-walk-lock"
 		e.execute(cs, randomDecide(rr))
 	}
 	for i := 0; i < nA && e.bad < 3; i++ {
